@@ -249,17 +249,46 @@ theorem doPrecommit_inv {cfg : Config} {σ : State} {s : Nat} (I : InvP cfg σ s
         · exact precommitUnknown_inv I b hs
       · exact precommitUnknown_inv I b hs
 
-theorem enterPrecommit_inv {cfg : Config} {σ : State} (I : Inv cfg σ) (h r : Nat) (hr : r ≤ σ.round) :
-    Inv cfg (enterPrecommit cfg h r σ) := by
+/-- for a round that is not later than the current one the commit-step test of `enterPrecommit`
+(F37 fix) is subsumed by the guard: in the commit step of round `r` the guard holds -/
+theorem enterPrecommit_le (cfg : Config) (h r : Nat) (σ : State) (hr : r ≤ σ.round) :
+    enterPrecommit cfg h r σ =
+      if σ.height ≠ h ∨ r < σ.round ∨ (σ.round = r ∧ Step.precommit.toNat ≤ σ.step.toNat) then σ
+      else { doPrecommit cfg r σ with round := r, step := .precommit } := by
+  unfold enterPrecommit
+  by_cases hg : σ.height ≠ h ∨ r < σ.round ∨ (σ.round = r ∧ Step.precommit.toNat ≤ σ.step.toNat)
+  · rw [if_pos hg, if_pos hg]
+  · rw [if_neg hg, if_neg hg, if_neg]
+    intro hc
+    apply hg
+    refine Or.inr (Or.inr ⟨by omega, ?_⟩)
+    rw [hc]; decide
+
+/-- `enterPrecommit` does nothing in the commit step (F37 fix) -/
+theorem enterPrecommit_commit (cfg : Config) (h r : Nat) (σ : State) (hc : σ.step = .commit) :
+    enterPrecommit cfg h r σ = σ := by
+  unfold enterPrecommit
+  by_cases hg : σ.height ≠ h ∨ r < σ.round ∨ (σ.round = r ∧ Step.precommit.toNat ≤ σ.step.toNat)
+  · rw [if_pos hg]
+  · rw [if_neg hg, if_pos hc]
+
+/-- `hr` is only needed when the node is not in the commit step (F37: there `enterPrecommit` returns) -/
+theorem enterPrecommit_inv' {cfg : Config} {σ : State} (I : Inv cfg σ) (h r : Nat)
+    (hr : σ.step ≠ .commit → r ≤ σ.round) : Inv cfg (enterPrecommit cfg h r σ) := by
   unfold enterPrecommit
   split
   · exact I
-  · rename_i hg
-    have hrr : r = σ.round := by omega
-    have hst : σ.step.toNat < 6 := by
-      simp only [Step.toNat] at hg ⊢; omega
-    subst hrr
-    have J := doPrecommit_inv I hst
-    exact J.of_eq rfl (by simp) (by simp [Step.toNat]) rfl rfl rfl rfl J.lk J.pb
+  · split
+    · exact I
+    · rename_i hg hc
+      have hrr : r = σ.round := by have := hr hc; omega
+      have hst : σ.step.toNat < 6 := by
+        simp only [Step.toNat] at hg ⊢; omega
+      subst hrr
+      have J := doPrecommit_inv I hst
+      exact J.of_eq rfl (by simp) (by simp [Step.toNat]) rfl rfl rfl rfl J.lk J.pb
+
+theorem enterPrecommit_inv {cfg : Config} {σ : State} (I : Inv cfg σ) (h r : Nat) (hr : r ≤ σ.round) :
+    Inv cfg (enterPrecommit cfg h r σ) := enterPrecommit_inv' I h r (fun _ => hr)
 
 end KV.Cs
